@@ -40,8 +40,8 @@ Definition extern_match (act imp : externtype) : bool :=
 (* the exported object as resolveImports sees it *)
 Inductive xobj :=
 | XFunc (ps rs : list Z)                                       (* Source.typeOfFunction(index) *)
-| XTable (tmin : Z) (thasmax : bool) (tmax : Z) (ttype : Z)    (* TableInstance.Min / Max / Type ... *)
-         (tlen : Z)                                            (* ... len(References): read by the specification only *)
+| XTable (tmin : Z) (thasmax : bool) (tmax : Z) (ttype : Z)    (* TableInstance.Min (the declared minimum) / Max / Type ... *)
+         (tlen : Z)                                            (* ... len(References): the table's CURRENT size *)
 | XMem (buflen : Z) (maxN : Z)                                 (* len(Buffer), MemoryInstance.Max (normalised by the decoder) ... *)
        (mhasmax : bool) (mdecl : Z)                            (* ... the declared maximum: read by the specification only *)
        (mshared : bool)                                        (* MemoryInstance.Shared *)
@@ -64,9 +64,13 @@ Definition norm_max (L mn : Z) (hasmax : bool) (mx : Z) : Z :=
 Definition code_accept (L : Z) (d : idesc) (x : xobj) : Z :=
   match d, x with
   | DFunc p r, XFunc p' r' => if list_eqb p' p && list_eqb r' r then 0 else 2
-  | DTable mn hm mx et, XTable tmin thm tmx tty _ =>
+  | DTable mn hm mx et, XTable tmin thm tmx tty tlen =>
       if negb (et =? tty) then 3
-      else if tmin <? mn then 4                               (* expected.Min > importedTable.Min: the DECLARED minimum *)
+      else if Z.max tmin tlen <? mn then 4                    (* expected.Min > max(importedTable.Min, len(References)): the CURRENT size, as
+                                                                 for memories below (since 3fc425f; before, only the DECLARED minimum was
+                                                                 consulted and imports of a grown table that the specification accepts were
+                                                                 rejected: witness w-table-grown of the check, sig rejects-spec-accepts /
+                                                                 table-current-size) *)
       else if hm then (if negb thm then 5 else if mx <? tmx then 6 else 0)
       else 0
   | DMem mn hm mx sh, XMem buflen maxN _ _ xsh =>
